@@ -31,18 +31,25 @@ impl<'de> Multipart<'de> {
                 item: TextOrFiles::Text(text),
             },
             Part::File { name, file } => {
-                if file.filename.is_empty() && file.content.is_empty() {
-                    return Some(Next { name, item: TextOrFiles::Files(Vec::new()) })
+                /* what a browser sends for a file input with no file chosen:
+                   no file, wherever it stands among the files of its name */
+                fn is_unselected(file: &File<'_>) -> bool {
+                    file.filename.is_empty() && file.content.is_empty()
                 }
 
-                let mut files = vec![file];
+                let mut files = Vec::new();
+                if !is_unselected(&file) {
+                    files.push(file);
+                }
                 while self.peek().is_some_and(|part| match part {
                     Part::File { name: next_name, .. } => name == *next_name,
                     Part::Text { .. } => false,
                 }) {
                     let Some(Part::File { file, .. }) = self.0.pop()
                         else {unsafe {std::hint::unreachable_unchecked()}};
-                    files.push(file);
+                    if !is_unselected(&file) {
+                        files.push(file);
+                    }
                 }
 
                 Next {
